@@ -113,7 +113,7 @@ def body_process(case, rec):
 
 def run_in(case_dir: Path, src, mp, tag, prefix, ext, fasta_buffer=None):
     outd = case_dir / f"out_{tag}"
-    outd.mkdir()
+    outd.mkdir(exist_ok=True)
     r = remap.run_cli_inprocess(["-a", src, "-p", mp, "-o", outd / f"x.1.{ext}", "-c", prefix], fasta_buffer=fasta_buffer)
     if r.exit_code != 0:
         return r.exit_code, None
@@ -135,7 +135,7 @@ def body_inprocess(case, rec):
             return
         if not (fai.exists() and agp.exists()):
             raise Violation("no index cache written beside the FASTA")
-        steps = [("warm", None)]
+        steps = [("warm", None), ("warm", None)]  # the second one re-runs into the directory the first one filled
         steps += [(f"buf{b}", b) for b in case["buffers"]]
         for tag, buf in steps:
             code, got = run_in(d / "A", src, mp, tag, prefix, "fa", fasta_buffer=buf)
